@@ -15,11 +15,13 @@ Definition frag_filters : Prop :=
 Definition frag_funcarg : Prop :=
   forall s p f args sp fal, quiet_list args = true ->
     render (ctx_at s p) (TFunc f args sp fal) = render (ctx_at s p) (TFunc f (strip_list args) sp fal).
+(* since the wave-2 repairs: in EVERY position and under EVERY constructor (no "shielding" side condition any more) *)
 Definition frag_larger : Prop :=
-  forall s p e, quiet (set_alias e None) = true -> (non_select p = true \/ shields e = true) ->
+  forall s p e, quiet (set_alias e None) = true ->
     render (ctx_at s p) e = render (ctx_at s p) (strip_inner e).
+(* ... and for every quiet value, aliased or not, VALUES renders no alias *)
 Definition frag_values : Prop :=
-  forall c t, alias_of t = None -> shields t = true -> quiet t = true ->
+  forall c t, quiet t = true ->
     values_item c t = render (x_ctx_at c PValues false) (strip_all t).
 Definition frag_group : Prop :=
   forall s t a, alias_of t = Some a -> a <> "" -> In t (s_group s) -> quiet t = true ->
@@ -47,21 +49,18 @@ Lemma frag_funcarg_holds : frag_funcarg.
 Proof. intros s p f args sp fal Hq. apply funcarg_alias_free, Hq. Qed.
 
 Lemma frag_larger_holds : frag_larger.
-Proof.
-  intros s p e Hq [Hp | Hs]; apply inner_alias_free; auto. left. apply non_select_wa, Hp.
-Qed.
+Proof. intros s p e Hq. apply inner_alias_free, Hq. Qed.
 
 Lemma strip_inner_unaliased t : alias_of t = None -> strip_inner t = strip_all t.
 Proof. unfold strip_inner. intros ->. apply set_alias_none_strip. Qed.
 Lemma set_alias_same t : set_alias t (alias_of t) = t.
 Proof. destruct t; reflexivity. Qed.
 
+Lemma values_wa c : wa (x_ctx_at c PValues false) = false.
+Proof. destruct c; reflexivity. Qed.
+
 Lemma frag_values_holds : frag_values.
-Proof.
-  intros c t Ha Hs Hq. unfold values_item.
-  rewrite (inner_alias_free (x_ctx_at c PValues false) t); [rewrite strip_inner_unaliased; auto| |right; exact Hs].
-  rewrite <- Ha, set_alias_same. exact Hq.
-Qed.
+Proof. intros c t Hq. unfold values_item. apply quiet_render; auto. apply values_wa. Qed.
 
 Lemma frag_group_holds : frag_group.
 Proof.
@@ -138,14 +137,16 @@ Definition w_gt : term := TBasic CGt fa one (Some "gt").
 Definition w_null : term := TIsNull fa (Some "n").
 Definition w_cplx : term := TCplx BAnd (TBasic CEq fa one None) (TBasic CEq fb two None) (Some "x").
 Definition w_fwd : term := TCplx BAnd (TBasic CGt fa one (Some "x")) (TBasic CEq fb two None) None.
+Definition w_val : term := TValI 1 (Some "n").                      (* an aliased ValueWrapper: ignores with_alias *)
+Definition w_sum : term := TArith OAdd w_val fa (Some "m").         (* ... as an operand of an aliased expression *)
 Definition w_now : term := TFunc "NOW" TNil None (Some "n").
 Definition w_sub : term := TSub "x" "u" (Some "sq").
 
-(* BasicCriterion: alias unquoted in the select list of a class whose convention is the double quote *)
+(* a sub-query selected under Snowflake: alias bare, the class's convention (and ORDER BY) quote it *)
 Lemma not_clause_select : ~ clause_select.
 Proof.
-  intros H. specialize (H (with_sel (st0 QGeneric) [w_gt]) w_gt "gt" eq_refl).
-  assert (N : "gt" <> "") by discriminate. specialize (H N (or_introl eq_refl)). vm_compute in H. discriminate H.
+  intros H. specialize (H (with_sel (st0 QSnowflake) [w_sub]) w_sub "sq" eq_refl).
+  assert (N : "sq" <> "") by discriminate. specialize (H N (or_introl eq_refl)). vm_compute in H. discriminate H.
 Qed.
 (* NullCriterion ignores with_alias: WHERE "a" IS NULL "n" *)
 Lemma not_clause_filters : ~ clause_filters.
@@ -156,17 +157,18 @@ Qed.
 (* an aliased ValueWrapper as function argument: F(1 "n") *)
 Lemma not_clause_funcarg : ~ clause_funcarg.
 Proof.
-  intros H. specialize (H (st0 QGeneric) PWhere "F" (TCons (TValI 1 (Some "n")) TNil) None None).
+  intros H. specialize (H (st0 QGeneric) PWhere "F" (TCons w_val TNil) None None).
   vm_compute in H. discriminate H.
 Qed.
-(* ComplexCriterion forwards with_alias=True to its operands: SELECT "a">1 x AND "b"=2 *)
+(* ... and as an operand of a selected expression: SELECT 1 "n"+"a" "m" (no constructor forwards with_alias any more; the
+   operand itself ignores it) *)
 Lemma not_clause_larger : ~ clause_larger.
 Proof.
-  intros H. specialize (H (st0 QGeneric) PSelect w_fwd). vm_compute in H. discriminate H.
+  intros H. specialize (H (st0 QGeneric) PSelect w_sum). vm_compute in H. discriminate H.
 Qed.
-(* VALUES (NOW() "n") *)
+(* VALUES (1 "n"): the flag is no longer handed to VALUES, the ValueWrapper ignores that *)
 Lemma not_clause_values : ~ clause_values.
-Proof. intros H. specialize (H QGeneric w_now). vm_compute in H. discriminate H. Qed.
+Proof. intros H. specialize (H QGeneric w_val). vm_compute in H. discriminate H. Qed.
 (* an un-selected aliased NullCriterion in GROUP BY / ORDER BY keeps its alias: GROUP BY "a" IS NULL "n" *)
 Lemma not_clause_group : ~ clause_group.
 Proof.
@@ -178,33 +180,51 @@ Proof.
   intros H. specialize (H (with_order (st0 QGeneric) [(w_null, Some DDesc)]) w_null (Some DDesc) "n" eq_refl).
   assert (N : "n" <> "") by discriminate. specialize (H N (or_introl eq_refl)). vm_compute in H. discriminate H.
 Qed.
-(* ComplexCriterion never renders its alias, yet its name counts as selected: ORDER BY "x" names nothing *)
+(* the Snowflake sub-query again: ORDER BY "sq" references a name the select list defines as the bare sq *)
 Lemma not_clause_defined : ~ clause_defined.
 Proof.
-  intros H. assert (N : "x" <> "") by discriminate.
-  destruct (H (with_sel (st0 QGeneric) [w_cplx]) "x" N eq_refl) as [t' [Hin [_ Hs]]].
+  intros H. assert (N : "sq" <> "") by discriminate.
+  destruct (H (with_sel (st0 QSnowflake) [w_sub]) "sq" N eq_refl) as [t' [Hin [_ Hs]]].
   destruct Hin as [<- | []]. vm_compute in Hs. discriminate Hs.
 Qed.
 
 (* the deviating behaviours as concrete texts of the model (the same texts the implementation produces: corpus) *)
 Definition witness_texts : Prop :=
   render_stmt (with_where (st0 QGeneric) w_null) = Ok "SELECT ""a"" FROM ""t"" WHERE ""a"" IS NULL ""n"""
-  /\ render_stmt (with_sel (st0 QGeneric) [w_gt]) = Ok "SELECT ""a"">1 gt FROM ""t"""
-  /\ render_stmt (with_sel (st0 QPostgres) [w_gt]) = Ok "SELECT ""a"">1 ""gt"" FROM ""t"""
-  /\ render_stmt (with_sel (st0 QGeneric) [w_cplx]) = Ok "SELECT ""a""=1 AND ""b""=2 FROM ""t"""
-  /\ render_stmt (with_sel (st0 QGeneric) [w_fwd]) = Ok "SELECT ""a"">1 x AND ""b""=2 FROM ""t"""
-  /\ render_stmt (with_sel (st0 QGeneric) [TBetween (TField "a" None (Some "n")) one two None])
-     = Ok "SELECT ""a"" ""n"" BETWEEN 1 AND 2 FROM ""t"""
-  /\ render_stmt (with_sel (st0 QGeneric) [TNeg (TField "a" None (Some "n"))]) = Ok "SELECT -""a"" ""n"" FROM ""t"""
-  /\ render_insert QGeneric [w_now] = Ok "INSERT INTO ""t"" VALUES (NOW() ""n"")"
-  /\ render_stmt (with_sel (st0 QSnowflake) [w_sub; TField "a" None (Some "m")]) = Ok "SELECT (SELECT x FROM u) sq,a ""m"" FROM t"
-  /\ render_stmt (with_order (with_sel (st0 QSnowflake) [w_sub]) [(w_sub, None)]) = Ok "SELECT (SELECT x FROM u) sq FROM t ORDER BY ""sq"""
-  /\ render_stmt (with_order (with_sel (st0 QGeneric) [w_cplx]) [(TField "z" None (Some "x"), None)])
-     = Ok "SELECT ""a""=1 AND ""b""=2 FROM ""t"" ORDER BY ""x"""
   /\ render_stmt (with_group (st0 QGeneric) [w_null]) = Ok "SELECT ""a"" FROM ""t"" GROUP BY ""a"" IS NULL ""n"""
-  /\ render_stmt (with_sel (st0 QGeneric) [TFunc "F" (TCons (TValI 1 (Some "n")) TNil) None None]) = Ok "SELECT F(1 ""n"") FROM ""t""".
+  /\ render_stmt (with_sel (st0 QGeneric) [TFunc "F" (TCons w_val TNil) None None]) = Ok "SELECT F(1 ""n"") FROM ""t"""
+  /\ render_stmt (with_sel (st0 QGeneric) [w_sum]) = Ok "SELECT 1 ""n""+""a"" ""m"" FROM ""t"""
+  /\ render_insert QGeneric [w_val] = Ok "INSERT INTO ""t"" VALUES (1 ""n"")"
+  /\ render_stmt (with_sel (st0 QSnowflake) [w_sub; TField "a" None (Some "m")]) = Ok "SELECT (SELECT x FROM u) sq,a ""m"" FROM t"
+  /\ render_stmt (with_order (with_sel (st0 QSnowflake) [w_sub]) [(w_sub, None)]) = Ok "SELECT (SELECT x FROM u) sq FROM t ORDER BY ""sq""".
 Lemma witness_texts_hold : witness_texts.
 Proof. vm_compute. repeat split. Qed.
+
+(* the former deviations repaired by f84cf61 / 39a4740 / 55bfddf / 97eddd6, as texts of the model (regression witnesses in
+   the corpus): comparison alias quoted; AND/OR alias rendered (and so defined for ORDER BY); no alias inside operands of
+   AND/OR, BETWEEN, unary minus; no alias inside VALUES *)
+Definition repaired_texts : Prop :=
+  render_stmt (with_sel (st0 QGeneric) [w_gt]) = Ok "SELECT ""a"">1 ""gt"" FROM ""t"""
+  /\ render_stmt (with_sel (st0 QPostgres) [w_gt]) = Ok "SELECT ""a"">1 ""gt"" FROM ""t"""
+  /\ render_stmt (with_sel (st0 QGeneric) [w_cplx]) = Ok "SELECT ""a""=1 AND ""b""=2 ""x"" FROM ""t"""
+  /\ render_stmt (with_order (with_sel (st0 QGeneric) [w_cplx]) [(TField "z" None (Some "x"), None)])
+     = Ok "SELECT ""a""=1 AND ""b""=2 ""x"" FROM ""t"" ORDER BY ""x"""
+  /\ render_stmt (with_sel (st0 QGeneric) [w_fwd]) = Ok "SELECT ""a"">1 AND ""b""=2 FROM ""t"""
+  /\ render_stmt (with_sel (st0 QGeneric) [TBetween (TField "a" None (Some "n")) one two None])
+     = Ok "SELECT ""a"" BETWEEN 1 AND 2 FROM ""t"""
+  /\ render_stmt (with_sel (st0 QGeneric) [TNeg (TField "a" None (Some "n"))]) = Ok "SELECT -""a"" FROM ""t"""
+  /\ render_insert QGeneric [w_now] = Ok "INSERT INTO ""t"" VALUES (NOW())".
+Lemma repaired_texts_hold : repaired_texts.
+Proof. vm_compute. repeat split. Qed.
+
+(* what became true for every term: a comparison and an AND/OR criterion are consuming constructors in the class's
+   convention (select list: expression, alias once, quoted), for all ten classes *)
+Lemma basic_cplx_in_fragment s t : (match t with TBasic _ _ _ _ | TCplx _ _ _ _ => true | _ => false end) = true ->
+  quiet t = true -> sel_frag s t = true.
+Proof.
+  intros Hk Hq. unfold sel_frag. rewrite Hq. destruct t; try discriminate Hk; cbn [consumes alias_behaviour andb];
+  unfold top_ok, reach_q, reach_aq; cbn [alias_behaviour]; rewrite String.eqb_refl; reflexivity.
+Qed.
 
 (* non-vacuity of the fragment: one aliased arithmetic object (with an aliased field inside) selected, filtered on,
    grouped and ordered by, in all ten classes *)
